@@ -136,6 +136,8 @@ def check_case(case, ctx):
     if ob.status != "optimal":
         ctx.label("inconclusive:status-%s" % ob.status)
         return
+    if oracles.solver_point_infeasible(env.pep.wrapper, ctx, tol=1e-6 if sc != "SCS" else 1e-3):
+        return
     ctx.label("solve:finite")
     ctx.label("solver:" + sc)
     pep = env.pep
